@@ -4,6 +4,7 @@ package main
 
 import (
 	"go/types"
+	"regexp"
 	"strings"
 
 	"golang.org/x/tools/go/ssa"
@@ -524,7 +525,15 @@ func (fr *Frame) callStatic(fn *ssa.Function, bind []Val, args []Val, c *ssa.Cal
 		}
 		return fr.iterateCall(site, c, fc, args, st, pos)
 	}
-	if fc != nil && !fc.Inline {
+	inlineHere := false
+	if fc != nil && fc.Flags["contract_only_in"] != "" {
+		// the contract is used only at call sites inside functions whose name matches; elsewhere the body is
+		// inlined as if there were no contract (the callers there carry the proof themselves)
+		if ok, _ := regexp.MatchString(fc.Flags["contract_only_in"], fr.vc.root.String()); !ok {
+			inlineHere = true
+		}
+	}
+	if fc != nil && !fc.Inline && !inlineHere {
 		fc.Used = true
 		v := fr.contractCall(fn, fc, args, bind, st, pos)
 		return v, st, true
@@ -534,7 +543,7 @@ func (fr *Frame) callStatic(fn *ssa.Function, bind []Val, args []Val, c *ssa.Cal
 		return v, st, true
 	}
 	inline := false
-	if fc != nil && fc.Inline {
+	if fc != nil && (fc.Inline || inlineHere) {
 		inline = true
 	} else if fn.Synthetic != "" && len(fn.Blocks) > 0 {
 		inline = true
